@@ -29,6 +29,15 @@ var commonTrusted = []string{
 }
 
 var props = map[string]*PropSpec{
+	"C04": {
+		ID:        "C04",
+		Cone:      []ConeItem{{Pkg: ".", Funcs: []string{"scMinimal"}}},
+		Quick:     twoLayouts,
+		Thorough:  allSix,
+		Technique: "contract-based deductive verification: scMinimal's postcondition result == (S < L) over the real code (loop unrolled with a concrete counter), discharged by z3/cvc5; call sites in verify/VerifyBatch are obligations of C01/C06",
+		Trusted:   []string{"M4 (L is the prime order of B) for the uniqueness reading: two accepted S, S' with equal (key, message, R) satisfy L | 8(S-S'), hence S = S' because both are below L"},
+		Assumptions: []string{"uniqueness of the accepted S is a consequence of S < L together with the verification equation (lemma, M4); it is not a separate obligation"},
+	},
 	"C19": {
 		ID:        "C19",
 		Cone:      []ConeItem{{Pkg: "internal/modm"}},
